@@ -1,14 +1,17 @@
 \* N records, at most W physical log writers (segments), SyncSet = records requesting sync,
-\* MaxFaults = injected create/write/sync failures
+\* MaxFaults = injected create/write/sync failures, QCap = initial ring capacity (doubles when full)
 SPECIFICATION Spec
 CONSTANTS
   N = 3
   W = 3
   SyncSet = {1, 3}
+  QCap = 1
   MaxFaults = 1
   BugDedupLT = FALSE
   BugNoReplay = FALSE
   BugPopBeyondSync = FALSE
+  BugGrowCopyUnwrapped = FALSE
+  BugReclaimAfterPut = FALSE
   GenMode = FALSE
 VIEW view
 INVARIANT Inv
